@@ -44,6 +44,21 @@ CHECKS.update({
    "sequential consistency; DashMap iter() modelled as an atomic snapshot; redundant notifications for no-op calls are not flagged; delivery order between different calls is not demanded", "DESIGN.md section 5 C11"),
 })
 
+CHECKS.update({
+ "C08": ("vsched", "stateless model checking + cut-point enumeration (spawn future dropped / instant task aborted before its k-th poll, all k) on the real spawn paths, residue-snapshot oracle",
+   "Send and thread-local actors x spawn / spawn_linked / spawn_instant / spawn_linked_instant x failure cause (pre_start Err or panic, name taken, killed during start-up, supervisor draining or stopping, start future dropped at every poll, instant task aborted at every poll) x side effect performed by pre_start (group joins, monitors, link under another supervisor, linked child, casts, a call queued from outside); each under a deviation-bounded schedule DFS; at quiescence nothing of the actor is left: status Stopped, waits return, name reusable, no pg trace, in no child set, no supervision event, queued calls fail.",
+   "task granularity; a cut landing after post_start began is treated as a running actor that must work and clean up normally", "DESIGN.md section 5 C08"),
+ "C09": ("vsched", "stateless model checking of call / multi_call / call_and_forward on the real code with a virtual clock (timer ties explored), reply-provenance oracle",
+   "1-3 concurrent callers x callee behaviour x callee exit landing anywhere by schedule x timeout relation; Success(v) only with the value sent on that call's own port, every call returns (a stuck caller is a scheduler-proved hang), completion <= T and == T for Timeout, multi_call in request order, forward exactly once iff the call succeeded.",
+   "task granularity; zero-cost computation on the virtual clock", "DESIGN.md section 5 C09"),
+ "C12": ("vsched", "stateless model checking on a virtual clock: deviation-bounded DFS over same-instant ties, exact-timestamp oracle",
+   "send_after / send_interval / exit_after / kill_after with periods {0,1,5} ms, target exit and handle abort before / exactly at / after the expiry, message construction that burns half a period (exposes drift); same-instant ties between the timer, an unrelated ready task and the exit are explored.",
+   "the seam's Interval (next_tick += period) replaces tokio's Interval: the no-drift clause is decided for time.rs's loop on top of it, not for tokio's timer wheel", "DESIGN.md section 5 C12"),
+ "C16": ("vsched", "stateless model checking of the real forwarding tasks for both port implementations (two builds), per-subscriber sequence oracle",
+   "A publisher sends 0..N with five subscribers (from the start, late at chosen points, filtering converter, self-stopping, slow) on the default port and on output-port-v2; deviation-bounded DFS over task-level schedules; order, no duplicates, completeness where no lag is possible, survivors unaffected, a lagging default-port subscriber still receives the newest publications.",
+   "tokio broadcast trusted as atomic steps; the v2 build is a second harness binary built with ractor/output-port-v2", "DESIGN.md section 5 C16"),
+})
+
 NOT_YET = {}
 
 def main():
